@@ -1,7 +1,7 @@
 (* Operational model of dag/manager.py (DAGRunConcurrentManager), events.py and chart.py (PipelineChart.run)
    as continuation frames interpreted against the state of Engine/State.v.
    One constructor of [frame] per point at which a coroutine of the engine can be resumed. *)
-From MLPE Require Export Engine.State.
+From MLPE Require Export Engine.State Pure.Retry.
 
 Inductive store_kind := StNone | StRecord | StWriteOnce.
 
@@ -84,15 +84,6 @@ Section Engine.
     | None => {| ns_params := []; ns_mode := MGated; ns_attempts := None; ns_delay := None; ns_excs := None;
                  ns_default := false |}
     end.
-
-  (* NodeRetryPolicy; the three defaults are regenerated from node/retrying.py into gen/Tables.v and
-     checked against these definitions in Proofs/TablesOk.v *)
-  Definition pol_attempts (nd : nspec) : Z :=
-    match ns_attempts nd with Some a => if Z.eqb a 0 then 1%Z else a | None => 1%Z end.
-  Definition pol_delay (nd : nspec) : nat := match ns_delay nd with Some d => d | None => 0 end.
-  Definition pol_excs (nd : nspec) : list exc_cls :=
-    match ns_excs nd with Some [] => [EExc] | Some l => l | None => [EExc] end.
-  Definition exc_matches (c : exc_cls) (l : list exc_cls) : bool := existsb (issub c) l.
 
   (* _is_executor_needed *)
   Definition needs_process : bool :=
@@ -316,8 +307,7 @@ Section Engine.
     | FDagLoop d (n :: rest) locals, SGo =>
       if is_ready (st_store st) d n then
         if d_oneof d && has_subgraph_error (st_store st) d then
-          let st1 := cancel_tasks locals st in
-          let st2 := notify_keys (descendants n) st1 in
+          let st2 := notify_keys (descendants n) st in
           (notify (CNode (d_dst d)) st2, DRet (SVal VNone))
         else
           match (if d_oneof d then None else dep_error (st_store st) d n) with
@@ -420,16 +410,13 @@ Section Engine.
         | _ => (st1, DSuspend (WGate (GBody i k)) [FRetryAfterBody i kw att])
         end
     | FRetryAfterBody i kw att, SGo =>
-      match p_body P i kw (Nat.pred att) with
-      | OVal v => (st, DRet (SVal v))
-      | ORaise c =>
-        let e := XNode c i (Nat.pred att) in
-        let nd := nspec_of i in
-        if exc_matches c (pol_excs nd) then
-          if Z.eqb (Z.of_nat att) (pol_attempts nd) then default_or_raise i kw e st
-          else (st, DCont [emit_frames EvNodeComplete (Some (KN i)) (Some e) None; FRetryAfterEmit i kw att] SGo)
-        else if issub c EExc then default_or_raise i kw e st
-             else (st, DRet (SThrow e))
+      match retry_decide (nspec_of i) (p_body P i kw (Nat.pred att)) att with
+      | RDReturn v => (st, DRet (SVal v))
+      | RDFinal c => default_or_raise i kw (XNode c i (Nat.pred att)) st
+      | RDPropagate c => (st, DRet (SThrow (XNode c i (Nat.pred att))))
+      | RDRetry c =>
+        (st, DCont [emit_frames EvNodeComplete (Some (KN i)) (Some (XNode c i (Nat.pred att))) None;
+                    FRetryAfterEmit i kw att] SGo)
       end
     | FRetryAfterEmit i kw att, SVal _ =>
       let dl := pol_delay (nspec_of i) in
